@@ -129,3 +129,57 @@ package vm
 //@   ensures gas-monotone [C02 C06]: contract.Gas <= old(contract.Gas)
 //@   ensures tree-grows [C07]: in.evm.tracer.callTree.count >= old(in.evm.tracer.callTree.count)
 //@ end
+
+// EVM.create: the same monitors as Call. The caller's nonce bump and the access-list entry happen before the
+// snapshot, exactly as in the reference (they belong to the creating instruction, not to the new frame).
+//@ func (*vm.EVM).create(evm, ctx, caller, codeAndHash, gas, value, address, typ) (ret, addr, leftoverGas, err)
+//@   verify
+//@   safety [C03]
+//@   requires host: hostEVM(evm) && hostRef(caller) && codeAndHash != nil && value != nil && !bigwide(value) && !bigneg(value)
+//@   requires no-wrap [C07]: evm.tracer.callTree.count != 18446744073709551615
+//@   let tree = evm.tracer.callTree
+//@   let callerAddr = uf("iface:vm.ContractRef.Address#0", "bv160", caller)
+//@   ghost saved bool = false
+//@   ghost exits u64 = 0
+//@   ghost exGas u64 = 0
+//@   ghost exRet slice = nil
+//@   ghost exErr error = nil
+//@   ghost snapTaken bool = false
+//@   ghost snapver u64 = 0
+//@   ghost snapid u64 = 0
+//@   ghost runN u64 = 0
+//@   ghost enters u64 = 0
+//@   ghost ends u64 = 0
+//@   ghost xfers u64 = 0
+//@   ghost homestead bool = evm.chainRules.IsHomestead
+//@   oncall (*vm.Tracer).SaveCall : saved = true
+//@   oncall (*vm.Tracer).ExitCall : exits = exits + 1 ; exGas = $1 ; exRet = $2 ; exErr = $3
+//@   oncall StateDB.Snapshot : snapTaken = true ; snapver = statever ; snapid = uint64($r)
+//@   oncall (*vm.EVMInterpreter).Run : runN = runN + 1
+//@   oncall EVMLogger.CaptureStart : enters = enters + 1
+//@   oncall EVMLogger.CaptureEnter : enters = enters + 1
+//@   oncall EVMLogger.CaptureEnd : ends = ends + 1
+//@   oncall EVMLogger.CaptureExit : ends = ends + 1
+//@   oncall (*vm.Tracer).TransferWithRecord : xfers = xfers + 1
+//@   assertcall (*vm.Tracer).SaveCall recorded-inputs [C08]: !saved && exits == 0 && $1 == callerAddr && $2 == nil && sameslice($3, codeAndHash.code) && $4 != nil && *$4 == bigabs(value) && $5 != nil && *$5 == u256(gas)
+//@   assertcall StateDB. saved-first [C07 C08]: saved && exits == 0
+//@   assertcall CanTransferFunc saved-first-b [C07 C08]: saved && exits == 0
+//@   assertcall EVMLogger. not-after-exit [C08 C18]: saved && exits == 0
+//@   assertcall (*vm.Tracer).ExitCall exit-last [C08]: saved && exits == 0
+//@   assertcall StateDB.RevertToSnapshot revert-target [C04]: snapTaken && uint64($1) == snapid
+//@   assertcall StateDB.CreateAccount mutation-inside-snapshot [C04]: snapTaken
+//@   assertcall StateDB.SetCode code-inside-snapshot [C04]: snapTaken
+//@   assertcall (*vm.EVMInterpreter).Run run-inside-snapshot [C04]: snapTaken && runN == 0
+//@   assertcall (*vm.Tracer).TransferWithRecord transfer-inside-snapshot [C04 C13]: snapTaken && saved && xfers == 0 && $2 == callerAddr && $3 == address && $4 == value
+//@   ensures exit-once-with-results [C08]: saved && exits == 1 && exGas == leftoverGas && sameslice(exRet, ret) && exErr == err
+//@   ensures cursor-restored [C07 C03]: tree.current == old(tree.current)
+//@   ensures node-pushed [C07]: tree.count > old(tree.count)
+//@   ensures failed-frame-reverted [C04]: snapTaken && err != nil && (homestead || err != ErrCodeStoreOutOfGas) ==> statever == snapver
+//@   ensures halt-forfeits-gas [C02 C06]: snapTaken && err != nil && err != ErrExecutionReverted && (homestead || err != ErrCodeStoreOutOfGas) ==> leftoverGas == 0
+//@   ensures collision-burns-gas [C02]: err == ErrContractAddressCollision ==> leftoverGas == 0
+//@   ensures refused-create-keeps-gas [C02]: (err == ErrDepth || err == ErrInsufficientBalance || err == ErrNonceUintOverflow) && !snapTaken ==> leftoverGas == gas
+//@   ensures no-gas-created [C02 C06]: leftoverGas <= gas
+//@   ensures tracer-balanced [C18]: enters == ends && enters <= 1
+//@   ensures one-transfer [C13]: xfers <= 1 && (runN == 1 ==> xfers == 1)
+//@   modifies *
+//@ end
